@@ -12,6 +12,62 @@ def fmt(v):
     return TOK[v] if v >= 1000 else repr(v / 2.0)
 
 
+def file_verdicts(ctx, exe):
+    """verdict of whole .check files (ComparisonFilesGen / ComparisonFilesJudge): one directory per file so that the exit status
+    of tfel-check is the one of that file; quick tier: exit statuses for a sample, log verdicts for all"""
+    files = ctx.gen("mtest/ComparisonFilesGen", out=ctx.path("files.ndjson"))
+    d = ctx.path("files")
+    os.makedirs(d)
+    for c in files:
+        fd = os.path.join(d, "f%05d" % c["id"])
+        os.makedirs(fd)
+        with open(os.path.join(fd, "t.check"), "w") as C:
+            prev = None
+            for j, q in enumerate(c["cmps"]):
+                with open(os.path.join(fd, "a%d.res" % j), "w") as A, open(os.path.join(fd, "b%d.res" % j), "w") as B:
+                    A.write("c1\n" + "".join(fmt(r[0]) + "\n" for r in q["rows"]))
+                    B.write("c1\n" + "".join(fmt(r[1]) + "\n" for r in q["rows"]))
+                if not (c["same"] and prev == q["type"]):
+                    C.write("@TestType %s;\n" % q["type"])
+                    C.write(("@Precision %r;\n" % (q["p"] / 4.0)) if q["type"] in ("Absolute", "Relative") else
+                            ("@Precision %r %r;\n" % (q["p"] / 4.0, q["p2"] / 4.0)))
+                prev = q["type"]
+                C.write("@Test 'a%d.res' 'b%d.res' 1;\n" % (j, j))
+    # all the files in one run of tfel-check (it walks the sub-directories): the log verdict of each file
+    r = ctx.run(["timeout", "900", exe, "-j", "8", "--discard-jobs-limit=true"], cwd=d, timeout=1000)
+    if r.returncode not in (0, 1):
+        raise Broken("tfel-check did not run to completion on the .check files (exit %d): %s" % (r.returncode, (r.stdout or "")[-400:]))
+    log = open(os.path.join(d, "tfel-check.log"), errors="replace").read()
+    verdict = {}
+    for m in re.finditer(r"end of test '\./(f\d+)/t\.check'[^\n]*?\[\s*(SUCCESS|FAILED)\]", log):
+        verdict[m.group(1)] = 1 if m.group(2) == "SUCCESS" else 0
+    if len(verdict) != len(files):
+        raise Broken("%d file verdicts for %d .check files" % (len(verdict), len(files)))
+    # exit status: a run of tfel-check on the file alone
+    step = 1 if ctx.thorough else 7
+    obs = []
+    for i, c in enumerate(files):
+        o = dict(c)
+        name = "f%05d" % c["id"]
+        o["success"] = verdict[name]
+        if i % step == 0:
+            rr = ctx.run(["timeout", "60", exe, "-j", "1"], cwd=os.path.join(d, name), timeout=90)
+            if rr.returncode not in (0, 1):
+                raise Broken("tfel-check exit %d on %s" % (rr.returncode, name))
+            o["exit0"] = 1 if rr.returncode == 0 else 0
+        else:
+            o["exit0"] = o["success"]
+        obs.append(o)
+    op = ctx.path("fileobs.ndjson")
+    core.write_ndjson(op, obs)
+    bad, jr = ctx.judge("mtest/ComparisonFilesJudge", op)
+    for b in bad:
+        for f in b["fails"]:
+            ctx.violation(f, "%s: %s" % (f, json.dumps({k: b["obs"][k] for k in ("id", "same", "success", "exit0")}) + " " +
+                                         json.dumps([[q["type"], q["rows"]] for q in b["obs"]["cmps"]])[:300]), {"case": b["obs"]})
+    return len(files)
+
+
 def run(ctx):
     ctx.build("tfel-check")
     cases = ctx.gen("mtest/ComparisonsGen", env={"TIER": ctx.tier})
@@ -60,12 +116,13 @@ def run(ctx):
     for b in bad:
         for f in b["fails"]:
             ctx.violation(f, "%s: %s" % (f, json.dumps(b["obs"])[:300]), {"case": b["obs"]})
+    nfiles = file_verdicts(ctx, exe)
     return finish(ctx, "exploration", {
         "evaluations": len(obs), "distinct_nontrivial": sum(1 for c in cases if c["rows"][0] != c["rows"][1] or c["rows"][0][0] != c["rows"][0][1]),
         "rule": "every pair of values of {-2,-1,-1/2,0,1/2,1,2,NaN,+inf,-inf} as the only row, first row or last row of a 2-row column "
                 "(the other row being the benign pair (1,1)), for Absolute / Relative with 5 precisions and RelativeAndAbsolute / Mixed with "
                 "3x3 precisions (%d comparisons), run through the real tfel-check executable; non-trivial = not a self comparison" % len(obs),
-        "samples": obs[:3], "exhaustive": True, "rejected_observations": len(bad)},
+        "samples": obs[:3], "exhaustive": True, "check_files_with_several_comparisons": nfiles, "rejected_observations": len(bad)},
         ["dyadic values and precisions: the implementation's arithmetic is exact on them, so the integer decision rules are exact",
          "only soundness (success => finite and within tolerance) and self-comparison are judged, as in the statement",
          "Area comparison and MTest @Test are not covered by this check"])
